@@ -5,6 +5,8 @@ import MetapypeModel.Model.Equal
 import MetapypeModel.Model.Forest
 import MetapypeModel.Model.Query
 import MetapypeModel.Model.NsHeap
+import MetapypeModel.Model.Copy
+import MetapypeModel.Model.Registry
 import MetapypeModel.Gen.Rules
 import MetapypeModel.Gen.Facts
 /-
@@ -111,6 +113,33 @@ def nsJson (n : Nat) (H : NsHeap) : Json :=
   Json.mkObj [("maps", .arr ((List.range n).map (fun a => dictJson (H.nsmapOf a))).toArray),
               ("refs", natsJson ((List.range n).map H.ns))]
 
+partial def getOTree (j : Json) : OTree :=
+  match j with
+  | .arr #[i, n, c, t, p, tags, a, e, ns, .arr kids] =>
+      let tg := match tags with | .arr x => x.toList.map getNat | _ => []
+      .mk ((optStr i).getD "") ((optStr n).getD "") (optStr c) (optStr t) (optStr p)
+          (tg.getD 0 0) (tg.getD 1 0) (tg.getD 2 0) (tg.getD 3 0) (tg.getD 4 0)
+          (getDict a) (getDict e) (getDict ns) (kids.toList.map getOTree)
+  | _ => .mk "" "?" none none none 0 0 0 0 0 [] [] [] []
+
+partial def oTreeJson : OTree → Json
+  | .mk i n c t p o ar er nr kr a e ns cs =>
+      let os (x : Option String) : Json := match x with | some s => .str s | none => .null
+      .arr #[.str i, .str n, os c, os t, os p, natsJson [o, ar, er, nr, kr], dictJson a, dictJson e, dictJson ns,
+             .arr (cs.map oTreeJson).toArray]
+
+partial def getIdTree (j : Json) : IdTree :=
+  match j with
+  | .arr #[.str i, o, .arr ks] => .mk i (getNat o) (ks.toList.map getIdTree)
+  | _ => .mk "?" 0 []
+
+def getRegOp (j : Json) : Option RegOp :=
+  match j with
+  | .arr #[.str "add", t] => some (.add (getIdTree t))
+  | .arr #[.str "deltree", t] => some (.delTree (getIdTree t))
+  | .arr #[.str "delone", .str i] => some (.delOne i)
+  | _ => none
+
 def handle (j : Json) : Json :=
   let T := Gen.tables
   let L := Lex.lexer
@@ -182,6 +211,15 @@ def handle (j : Json) : Json :=
         let H := nsStep (n + 2) acc.1 op
         (H, acc.2 ++ [nsJson n H])) (H0, [])
       .arr outs.toArray
+  | some "copy" =>
+      let t := getOTree (fld j "tree")
+      let r := copyO (fun k => "uid" ++ toString k) t { tag := getNat (fld j "tag"), uid := 0 }
+      oTreeJson r.1
+  | some "registry" =>
+      let ops := match fld j "ops" with | .arr a => a.toList.filterMap getRegOp | _ => []
+      match ops.foldlM (fun r op => regStep r op) ([] : Registry) with
+      | none => .str "exception"
+      | some R => .arr (R.map (fun kv => Json.arr #[.str kv.1, (kv.2 : Json)])).toArray
   | some "isequal" =>
       Json.bool (isEqual (getTree (fld j "a")) (getTree (fld j "b")))
   | some "tables" =>
